@@ -108,6 +108,8 @@ def main(argv: list[str]) -> int:
         no_shrink = {tuple(k) for k in job.get("no_shrink_keys", [])}
         for idx in range(job["start"], job["end"]):
             rng = case_rng(job["seed"], job["pid"], family.name, idx)
+            rng.case_index = idx  # generators that enumerate a finite catalogue use these
+            rng.verif_seed = job["seed"]
             try:
                 case = family.gen(rng, job["tier"])
             except Exception as exc:  # noqa: BLE001  generator bug: harness error, not a verdict
